@@ -38,13 +38,14 @@ theorem plain_default (d : Option JVal) : Kw.plain { default := d } := by
 
 theorem validators_plain (env : Env) (c : Cls) (kw : Kw) (sub : VSub) (v : JVal)
     (hk : kw.plain) (h1 : sub.contains = none) (h2 : sub.propNames = none) (h3 : sub.deps = [])
-    (h4 : sub.props = []) : validators id env c kw sub v = V.ofBool (typeOk c v) := by
+    (h4 : sub.props = []) (hA : ∀ kvs, additionalPropsCheck env c kw sub kvs = .pass) :
+    validators id env c kw sub v = V.ofBool (typeOk c v) := by
   obtain ⟨a1, a2, a3, a4, a5, a6, a7, a8, a9, a10, a11, a12, a13, a14, a15, a16, a17, a18⟩ := hk
   unfold validators literalChecks
   cases v <;>
     simp [a1, a2, a3, a4, a5, a6, a7, a8, a9, a10, a11, a12, a13, a14, a15, a16, a17, a18, h1, h2, h3, h4,
       optCheck, numChecks, strChecks, arrChecks, objChecks, additionalItemsCheck, containsCheck,
-      propNamesCheck, depElemsCheck, depNamesOf, requiredNames]
+      propNamesCheck, depElemsCheck, depNamesOf, requiredNames, hA]
 
 theorem itemsCallFrom_none (kw : Kw) (sub : VSub) (h : kw.itemsKind = .none) (xs : List JVal) (i : Nat) :
     V.all id (itemsCallFrom vAlg kw sub i xs) = .pass := by
@@ -72,7 +73,7 @@ theorem acc_trivial_core (env : Env) (kw : Kw) (sub : VSub) (a : Arg) (hk : kw.p
   have hv : ∀ v, createV env .element kw sub v = .pass := by
     intro v
     unfold createV
-    rw [validators_plain env .element kw sub v hk h1 h2 h3 h4]
+    rw [validators_plain env .element kw sub v hk h1 h2 h3 h4 (fun _ => rfl)]
     simp only [typeOk, V.ofBool_true, V.and_pass_left, constructV]
     cases v with
     | arr xs => exact itemsCallFrom_none kw sub hk.2.2.1 xs 0
@@ -121,7 +122,7 @@ theorem acc_isTrivial (env : Env) (e : Elem) (h : e.isTrivial = true) (a : Arg) 
 theorem acc_nothing_val (env : Env) (v : JVal) : Elem.nothing.acc env (.val v) = .reject := by
   rw [Elem.nothing, Elem.leaf, Elem.acc]
   simp only [accCore, createV]
-  rw [validators_plain env .nothing _ _ v (plain_default none) rfl rfl rfl rfl]
+  rw [validators_plain env .nothing _ _ v (plain_default none) rfl rfl rfl rfl (fun _ => rfl)]
   simp only [typeOk, V.ofBool_false, constructV]
   cases v <;> simp [V.and, accList, accOpt, itemsCallFrom_none, propsOuts_open, accProps, accKeyed]
 
@@ -165,14 +166,14 @@ theorem acc_compose_val (env : Env) (c : Cls) (hc : isCompCls c = true) (es : Li
     (Elem.compose c es d).acc env (.val v) = attemptV c ((accList env es).map fun f => f (.val v)) := by
   rw [Elem.compose, Elem.acc]
   simp only [accCore, createV]
-  rw [validators_plain env c _ _ v (plain_default d) rfl rfl rfl rfl]
+  rw [validators_plain env c _ _ v (plain_default d) rfl rfl rfl rfl (by intro kvs; cases c <;> simp [additionalPropsCheck, accOpt])]
   cases c <;> simp [isCompCls] at hc <;> simp [typeOk, constructV]
 
 theorem acc_not_val (env : Env) (e : Elem) (v : JVal) :
     (Elem.mk .not {} [] none none [] [] none none [] [e]).acc env (.val v) = notV (e.acc env (.val v)) := by
   rw [Elem.acc]
   simp only [accCore, createV]
-  rw [validators_plain env .not _ _ v (plain_default none) rfl rfl rfl rfl]
+  rw [validators_plain env .not _ _ v (plain_default none) rfl rfl rfl rfl (by intro kvs; simp [additionalPropsCheck, accOpt])]
   simp [typeOk, constructV, accList]
 
 /-- related lists of elements and validity functions -/
